@@ -151,6 +151,25 @@ func Generate(r *vk.RNG, p Profile) *App {
 			a.Trans[lc] = m
 		}
 	}
+	if p.Sinks {
+		// labels (and translations) of the browse entries: their own random stream, derived from the application, so
+		// that the rest of the generation is what it was before they existed
+		var sb strings.Builder
+		for _, n := range a.Order {
+			sb.WriteString(n + "\x00" + a.Nodes[n].Template + "\x00")
+		}
+		rb := vk.CaseRNG(0xb20e5e, sb.String())
+		for _, l := range []string{"lnext", "lprev"} {
+			if rb.Chance(2, 3) {
+				a.Labels[l] = vk.Pick(rb, []string{"n", "next", "more >>", "Next page", "back", "previous page"})
+			}
+			for _, lc := range []string{"nor", "swa", "fra"} {
+				if a.Trans[lc] != nil && rb.Chance(1, 2) {
+					a.Trans[lc]["m:"+l] = vk.Pick(rb, []string{lc, lc + "-" + l, lc + " neste side / ukurasa", "»"})
+				}
+			}
+		}
+	}
 	a.Finalize()
 	return a
 }
